@@ -201,6 +201,7 @@ func (a *archetype) Set(index uint32, id ID, comp interface{}) unsafe.Pointer {
 	if size == 0 {
 		return dst
 	}
+	escapes(comp)
 	rValue := reflect.ValueOf(comp)
 
 	src := rValue.UnsafePointer()
@@ -367,4 +368,21 @@ func (a *archetype) removeEntity(index uint32) bool {
 	a.copy(src, dst, entitySize)
 
 	return true
+}
+
+// escapeSink is never enabled; it only prevents the compiler from proving that components do not escape.
+var escapeSink struct {
+	enabled bool
+	value   interface{}
+}
+
+// escapes forces its argument, and everything it references, to be heap-allocated.
+//
+// Components are copied into archetype storage by raw memory copies, which escape analysis can't see.
+// Without this, a component literal passed to World.Set, World.Assign, World.NewEntityWith etc. can be
+// stack-allocated together with the objects it points to, leaving the stored component with dangling pointers.
+func escapes(x interface{}) {
+	if escapeSink.enabled {
+		escapeSink.value = x
+	}
 }
